@@ -190,7 +190,8 @@ def execTail : Nat → (maxOps : Nat) → State → Obj → Bool → Bool → St
   | 0, _, s, _, _, _ => (s, .fuel)
   | fuel + 1, m, s, obj, execProc, counted =>
     let s := { s with numOps := s.numOps + 1 }
-    if m > 0 ∧ s.numOps > m then (s, .err .limit)
+    -- the exported counter saturates at `MaxOps + 1`, however often `Execute` is called again
+    if m > 0 ∧ s.numOps > m then ({ s with numOps := m + 1 }, .err .limit)
     else
       match obj with
       | .op n =>
